@@ -168,11 +168,15 @@ func Modf(f float64) (float64, float64) {
 	if f == posInf || f == negInf {
 		return f, nan
 	}
-	if 1/f == negInf {
-		return f, f
+	if f == 0 {
+		return f, f // Return -0, -0 when f == -0
 	}
 	frac := Mod(f, 1)
-	return f - frac, frac
+	whole := f - frac
+	if whole == 0 && f < 0 {
+		whole = -whole // Both parts have the sign of f, also when the integer part is zero.
+	}
+	return whole, frac
 }
 
 func NaN() float64 {
